@@ -42,6 +42,7 @@ pub struct B<'a> {
     /// callee graphs available for Iterate (graph, state type, element type)
     pub iter_callees: Vec<(Graph, Type, Type)>,
     pub allow_custom: bool,
+    pub allow_truncate: bool,
     pub max_elems: u64,
 }
 
@@ -82,6 +83,7 @@ impl<'a> B<'a> {
             callees: vec![],
             iter_callees: vec![],
             allow_custom: true,
+            allow_truncate: false,
             max_elems: 4096,
         }
     }
@@ -755,7 +757,13 @@ impl<'a> B<'a> {
             33 => self.p_repeat(),
             34 => self.p_a2v(),
             35 => self.p_v2a(),
-            36 => self.p_zeros_ones(),
+            36 => {
+                if self.allow_truncate && self.rng.chance(2, 3) {
+                    self.p_truncate()
+                } else {
+                    self.p_zeros_ones()
+                }
+            }
             37 => {
                 if self.allow_custom {
                     if self.rng.chance(1, 4) {
@@ -823,7 +831,9 @@ impl<'a> B<'a> {
             3 => 10,
             4 => 1u128 << self.rng.below(w - 1),
             5 if self.flavor == Flavor::Any => 0,
-            6 => 1u128 << (w - 1),
+            // 2^(w-1) is outside the documented domain of secure truncation (k <= w-2): only for
+            // the plaintext alphabets
+            6 if self.flavor != Flavor::Mpc => 1u128 << (w - 1),
             _ => self.rng.range(1, 1000) as u128,
         };
         let r = self.g.truncate(a, scale);
